@@ -34,6 +34,7 @@ type fakeServer struct {
 	delayMs int     // delay before every answer (C17 completion orders)
 	ctrl    *bkCtrl // fail-backup schedules: every dial and every arriving request is reported, answers are held
 	wmu     sync.Mutex
+	byArg   map[string]string // when set: the action is chosen by the request's payload, not by arrival order
 }
 
 // events of a fail-backup schedule, in the order they happen
@@ -149,6 +150,9 @@ func (s *fakeServer) serve(conn net.Conn) {
 			act = s.calls[0]
 			s.calls = s.calls[1:]
 		}
+		if s.byArg != nil {
+			act = s.byArg[string(f.Raw)]
+		}
 		delay := s.delayMs
 		onCtx := s.onCtx
 		s.mu.Unlock()
@@ -212,6 +216,8 @@ func (s *fakeServer) respond(conn net.Conn, f *refcodec.Frame, act string, delay
 	} else if act == "svc" {
 		h[2] |= 0x01
 		meta = []refcodec.KV{{K: []byte(protocol.ServiceError), V: []byte(fmt.Sprintf("svc-error-from-s%d", s.id))}}
+	} else if len(act) > 3 && act[:3] == "js:" { // success with a literal JSON reply
+		payload = []byte(act[3:])
 	} else { // ok<r>
 		n, _ := strconv.Atoi(act[2:])
 		payload = []byte(strconv.Itoa(n))
